@@ -242,6 +242,20 @@ func FilePutFloat(path string, f float64) {
 	}
 }
 
+// FileState sets existence, content kind (number or garbage) and value in one call; all three may
+// be symbolic (no case split in the harness: the code under test forks when it looks at the file).
+func FileState(path string, exists bool, garbage bool, value int) {
+	if !exists {
+		_ = os.Remove(path)
+		return
+	}
+	if garbage {
+		FileGarbage(path)
+		return
+	}
+	FilePut(path, true, value)
+}
+
 // FileGarbage makes the file exist with non-numeric content.
 func FileGarbage(path string) {
 	if err := os.WriteFile(path, []byte("garbage"), 0o644); err != nil {
